@@ -66,7 +66,7 @@ func init() {
 		defer w.Flush()
 		enc := json.NewEncoder(w)
 		for i, evs := range res {
-			_ = enc.Encode(map[string]any{"a": "reset", "run": i + 1})
+			_ = enc.Encode(map[string]any{"a": "reset", "run": i + 1, "aio": hs[i].Cfg.AIO})
 			for _, ev := range evs {
 				_ = enc.Encode(ev)
 			}
